@@ -13,6 +13,7 @@ from tracklib import (ENUCoords, Obs, ObsTime, Track, TrackCollection, Network, 
 from vt import gen, oracle
 from vt.core import SubCheck, Violation, exc_key
 
+HANG_IS_VIOLATION = False      # cost depends on generated grid / file sizes: a CPU budget hit is inconclusive here
 ASSUMPTIONS = [
     "network prepared as NetworkReader / test_mapping.py do: edge geometry source->target with abs_curv, "
     "weight = 2D length, z = 0, node coordinates = first/last vertex, SpatialIndex attached, prepare() called",
@@ -120,6 +121,10 @@ def body(case):
     (x0, x1, y0, y1), cells = _extent(case)
     if cells[0] < 1 or cells[1] < 1:
         return {"undef": True, "cls": ["undef-index-precondition"]}
+    if cells[0] * cells[1] > 40000:
+        # a grid of that many cells (tiny square cells on a very elongated extent) takes minutes to build and to
+        # scan; the property does not depend on it, and a slow case must never be mistaken for a failure
+        return {"undef": True, "cls": ["undef-grid-too-large"]}
     radius, noise = case["radius"], case["noise"]
     tracks_obs = [[tuple(p) for p in case["obs"]]] + [[tuple(p) for p in t] for t in case.get("more", [])]
     allobs = [p for t in tracks_obs for p in t]
@@ -367,7 +372,7 @@ def _case(draw):
         n2 = draw(st.one_of(st.integers(1, 6), st.integers(1, 40)))
         f1 = draw(st.sampled_from([0.05, 0.25, 0.5, 0.9]))
         f2 = draw(st.sampled_from([0.05, 0.25, 0.5, 0.9]))
-        if how == "square":
+        if how == "square" and max(ax, ay) / (min(ax, ay) / (n1 + f1)) <= 400:
             s = min(ax, ay) / (n1 + f1)
             case["res"] = [s, s]
         else:
